@@ -260,36 +260,60 @@ theorem beq_ren (ρ : Ren) (a b : String) : (ρ.f a == ρ.f b) = (a == b) := by
   · have : ρ.f a ≠ ρ.f b := fun e => h (ρ.inj _ _ e)
     rw [beq_eq_false_iff_ne.2 h, beq_eq_false_iff_ne.2 this]
 
+theorem beq_ren_unraw (ρ : Ren) (a b : String) : (unraw (ρ.f a) == unraw (ρ.f b)) = (unraw a == unraw b) := by
+  rw [ρ.unraw_comm, ρ.unraw_comm]; exact beq_ren ρ _ _
+
+theorem stripParen_rename (ρ : Ren) : (t : Ty) → (t.rename ρ).stripParen = (t.stripParen).rename ρ
+  | .paren t => by
+    show (Ty.paren (t.rename ρ)).stripParen = _
+    simp only [Ty.stripParen]
+    exact stripParen_rename ρ t
+  | .path .. => by simp [Ty.rename, Ty.stripParen]
+  | .qpath .. => by simp [Ty.rename, Ty.stripParen]
+  | .ref .. => by simp [Ty.rename, Ty.stripParen]
+  | .ptr .. => by simp [Ty.rename, Ty.stripParen]
+  | .slice .. => by simp [Ty.rename, Ty.stripParen]
+  | .array .. => by simp [Ty.rename, Ty.stripParen]
+  | .tuple .. => by simp [Ty.rename, Ty.stripParen]
+  | .bareFn .. => by simp [Ty.rename, Ty.stripParen]
+  | .never => by simp [Ty.rename, Ty.stripParen]
+  | .dynT .. => by simp [Ty.rename, Ty.stripParen]
+  | .macro .. => by simp [Ty.rename, Ty.stripParen]
+  | .prefixed .. => by simp [Ty.rename, Ty.stripParen]
+
 /-- **whether the last field may be unsized does not depend on names**: `str` stays `str`, and a parameter declared
 `?Sized` (inline or in the where-clause) is found under its new name -/
 theorem mayBeUnsized_rename (ρ : Ren) (ty : Ty) (g : Generics) :
     mayBeUnsized (ty.rename ρ) (g.rename ρ) = mayBeUnsized ty g := by
+  unfold mayBeUnsized
+  rw [stripParen_rename]
+  generalize ty.stripParen = ty
   cases ty with
   | path gl segs =>
     cases gl with
-    | true => simp [Ty.rename, mayBeUnsized]
+    | true => simp [Ty.rename]
     | false =>
       cases segs with
-      | nil => simp [Ty.rename, Seg.renameL, mayBeUnsized]
+      | nil => simp [Ty.rename, Seg.renameL]
       | cons s rest =>
         cases s with
-        | fn i a r => cases rest <;> simp [Ty.rename, Seg.renameL, Seg.rename, mayBeUnsized]
+        | fn i a r => cases rest <;> simp [Ty.rename, Seg.renameL, Seg.rename]
         | mk i args =>
           cases rest with
-          | cons _ _ => simp [Ty.rename, Seg.renameL, Seg.rename, mayBeUnsized]
+          | cons _ _ => simp [Ty.rename, Seg.renameL, Seg.rename]
           | nil =>
             cases args with
-            | cons _ _ => simp [Ty.rename, Seg.renameL, Seg.rename, GArg.renameL, mayBeUnsized]
+            | cons _ _ => simp [Ty.rename, Seg.renameL, Seg.rename, GArg.renameL]
             | nil =>
-              simp only [Ty.rename, Seg.renameL, Seg.rename, GArg.renameL, mayBeUnsized, Generics.rename, List.any_map]
-              have hstr : (ρ.f i == "str") = (i == "str") := by
-                have := beq_ren ρ i "str"; rwa [ρ.str_fixed] at this
+              simp only [Ty.rename, Seg.renameL, Seg.rename, GArg.renameL, Generics.rename, List.any_map]
+              have hstr : (unraw (ρ.f i) == "str") = (unraw i == "str") := by
+                have := beq_ren ρ (unraw i) "str"; rwa [ρ.str_fixed, ← ρ.unraw_comm] at this
               rw [hstr]
               congr 1
               · congr 1
                 congr 1
                 funext p
-                cases p <;> simp [GParam.rename, beq_ren, isMaybeBound_comp_rename]
+                cases p <;> simp [GParam.rename, beq_ren_unraw, isMaybeBound_comp_rename]
               · congr 1
                 funext p
                 cases p with
@@ -308,9 +332,9 @@ theorem mayBeUnsized_rename (ρ : Ren) (ty : Ty) (g : Generics) :
                         | nil =>
                           cases args2 with
                           | cons _ _ => simp [WPred.rename, Ty.rename, Seg.renameL, Seg.rename, GArg.renameL]
-                          | nil => simp [WPred.rename, Ty.rename, Seg.renameL, Seg.rename, GArg.renameL, beq_ren, isMaybeBound_comp_rename]
+                          | nil => simp [WPred.rename, Ty.rename, Seg.renameL, Seg.rename, GArg.renameL, beq_ren_unraw, isMaybeBound_comp_rename]
                   | _ => simp [WPred.rename, Ty.rename]
-  | _ => simp [Ty.rename, mayBeUnsized]
+  | _ => simp [Ty.rename]
 
 /-! ### the hypotheses are satisfiable: exchanging two names is a renaming -/
 
